@@ -20,7 +20,7 @@ def run(ctx):
     files.update(core.dir_files('harness/c03', 'internal/patch'))
     files.update(core.dir_files('harness/c03/pha', 'zzverif/c03pha'))
     b = ctx.build('c03', core.MODPATH + '/internal/patch', files)
-    ch = ctx.child(b, run='TestC03Validator$', timeout=1200)
+    ch = ctx.child(b, run='TestC03Validator$', timeout=1200, env={'VERIF_C03_BOTH': '1' if ctx.thorough else '0'})
     ctx.absorb(ch, what='TestC03Validator')
     # synthetic zoo: byte-exact shapes executed, one child process per (shape, placeholder side)
     cnt = ctx.child(b, run='TestC03Synth', timeout=120, env={'VERIF_C03_SHAPE': 'count'}, label='synth-count')
